@@ -567,7 +567,23 @@ def run_collision(scope, st, A, B, relation='collision'):
         sim.reset()
         if relation == 'collision':
             fa = make_fixtures(A, scope)
+            # B now creates resources of its own under the same names
+            # (workbook members included): whatever is refused or accepted,
+            # A's rows must stay as they are
+            before = rest.db_dump()
             fb = make_fixtures(B, 'private', tolerant=True)
+            a_changed = rest.dump_diff(_owned(before, PA),
+                                       _owned(rest.db_dump(), PA))
+            st.case(runner.fp(['create-under-taken-names', scope]), True,
+                    ['creation_under_taken_names', 'scope_' + scope])
+            if a_changed and not any(
+                    v['kind'] == 'creating-own-resources-changed-foreign-rows'
+                    for v in viol):
+                viol.append({
+                    'kind': 'creating-own-resources-changed-foreign-rows',
+                    'detail': {'layer': 'services', 'type': 'all',
+                               'op': 'create', 'scope': scope,
+                               'relation': relation, 'diff': a_changed[:6]}})
         else:
             # B's rows come first in every table
             fb = make_fixtures(B, 'private')
